@@ -14,3 +14,17 @@ chk('C02', 'other',
     'stubs of vt/stubs.py; reference semantics vt/sem/{mcnp,t4}.py; 3-point planes decomposed into planeParamsFromPoints + wiring + P/4',
     'symbolic execution of the real Python code (operator-overloading SymReal, z3 path forking) + z3 nonlinear real arithmetic on region XOR',
     'DESIGN.md 4/C02')
+
+chk('C03', 'other',
+    'Bounded symbolic execution of the real macrobody code. Layer (a): MacroBodies.<body>(params) with every body parameter a '
+    'symbolic real (WED and ELL-positive: orientation from a finite rotation set, position/sizes symbolic; ARB: symbolic affine image '
+    'of reference polytopes); each returned facet is proven to be the facet MCNP numbers k with the outward side positive '
+    '(coefficient vectors of the two implicit functions parallel by rational-function normal form, same direction by z3), for all '
+    'parameter values and points. Layer (b): the real chain to T4 surfaces and the real -b/+b/+-b.k expansion with orientation from a '
+    'rotation set (6 quick / 29 thorough) and symbolic position and sizes, regions compared by z3 with the point symbolic. Layer (c): '
+    'generic cylinder/cone primitives with all parameters symbolic.',
+    'reals for floats; MCNP facet numbering and solids as restated in vt/sem/mcnp.py; ELL positive form = authors\' MCNP-validated '
+    'formula; TRC facet 1 = two-sheet cone; convex ARB only; layer (b) orientations limited to the rotation set; RHP/9 reduced to the '
+    '15-entry form with reference-rotated vectors',
+    'symbolic execution of the real Python code + rational-function identity + z3 nonlinear real arithmetic',
+    'DESIGN.md 4/C03')
